@@ -28,7 +28,11 @@ __CPROVER_ensures(__CPROVER_return_value >= 0 ==> (*pdata == __CPROVER_old(*pdat
 __CPROVER_ensures((__CPROVER_return_value >= 0 && (id_byte >> 1) > 0 && (id_byte >> 1) < 32 && (id_byte >> 1) != 2) ==>
                   (len - __CPROVER_return_value == (id_byte & 1) && *pheader_size == 0))
 __CPROVER_ensures((__CPROVER_return_value >= 0 && ((id_byte >> 1) == 2 || id_byte == 1)) ==> (__CPROVER_return_value == len && *pheader_size == 0))
-__CPROVER_ensures((__CPROVER_return_value >= 0 && (id_byte >> 1) >= 32 && (id_byte & 1) == 0) ==> (__CPROVER_return_value == trailing_short_len && *pheader_size == 0))
+/* L=0 long extension (and the id 0 / L 0 byte, which the code treats the same way): everything up to the trailing short payloads */
+__CPROVER_ensures((__CPROVER_return_value >= 0 && ((id_byte >> 1) >= 32 || id_byte == 0) && (id_byte & 1) == 0) ==> (__CPROVER_return_value == trailing_short_len && *pheader_size == 0))
+/* long extension with L=1: the header is exactly the lacing bytes of the payload length: hs = payload/255 + 1 */
+__CPROVER_ensures((__CPROVER_return_value >= 0 && (id_byte >> 1) >= 32 && (id_byte & 1) == 1) ==>
+                  (*pheader_size >= 1 && *pheader_size == ((len - __CPROVER_return_value) - *pheader_size) / 255 + 1))
 ;
 
 #undef  OPUS_VERIF_LOOP_ext_lacing
@@ -37,6 +41,7 @@ __CPROVER_ensures((__CPROVER_return_value >= 0 && (id_byte >> 1) >= 32 && (id_by
   __CPROVER_loop_invariant(__CPROVER_same_object(data, *pdata) && PO(data) >= PO(*pdata)) \
   __CPROVER_loop_invariant(bytes >= 0 && header_size >= 0 && len >= -255 && len <= __CPROVER_loop_entry(len)) \
   __CPROVER_loop_invariant(PO(data) - PO(*pdata) == header_size) \
+  __CPROVER_loop_invariant((long long)bytes == 255LL * header_size)   /* every lacing byte read so far was 255 */ \
   __CPROVER_loop_invariant((long long)len + bytes + header_size == __CPROVER_loop_entry(len)) \
   __CPROVER_decreases(len)
 
@@ -50,5 +55,9 @@ __CPROVER_ensures(__CPROVER_return_value == -1 ==> *pdata == __CPROVER_old(*pdat
 __CPROVER_ensures(__CPROVER_return_value >= 0 ==> (*pdata == __CPROVER_old(*pdata) + (len - __CPROVER_return_value) &&
                   0 <= *pheader_size && *pheader_size <= len - __CPROVER_return_value))
 __CPROVER_ensures((len > 0 && __CPROVER_return_value >= 0) ==> (__CPROVER_return_value < len && *pheader_size >= 1))
+/* header = id byte + lacing bytes; payload = consumed - header; for a long L=1 extension header == 2 + payload/255 */
+__CPROVER_ensures((len > 0 && __CPROVER_return_value >= 0 && (__CPROVER_old((*pdata)[0]) >> 1) >= 32 && (__CPROVER_old((*pdata)[0]) & 1) == 1) ==>
+                  *pheader_size == ((len - __CPROVER_return_value) - *pheader_size) / 255 + 2)
+__CPROVER_ensures((len > 0 && __CPROVER_return_value >= 0 && (__CPROVER_old((*pdata)[0]) >> 1) < 32) ==> *pheader_size == 1)
 ;
 #endif
